@@ -28,6 +28,9 @@ func decodeFromBuffer(buf *bytes.Buffer, depth int, nodeCount *int, indefinite b
 		}
 
 		if tag == 0 && length == 0 {
+			if !indefinite {
+				return nil, fmt.Errorf("[decode] unexpected end-of-contents outside of an indefinite-length value")
+			}
 			return nodes, nil
 		}
 
